@@ -39,6 +39,9 @@ CHECKS = {
  'C17': dict(text='Stateful model-based search: a Hypothesis RuleBasedStateMachine owns one persistent SQLite file and 2-3 variants of a generated program grounding the same predicate names; steps run a predicate exactly as logica.py does (script mode, the real logica.py CLI in-process, or concertina for several predicates), repeat runs, reopen the observer, and tamper with a freshly written table to prove dependants read it; after every step the file read through a second connection must equal a table->multiset model computed by the independent reference evaluator, and returned rows must equal the reference.',
              note='Trusted: CPython, sqlite3, Hypothesis, lv/ref.py, lv/canon.py. Bounds: <= 9 predicates, <= 5 rows per fact table, <= 3 grounded predicates, 2-3 variants, <= 11 steps. overwrite:false, @Ground(P, Q), copy_to_file and rule-less grounded predicates are outside the stated domain and not generated.',
              technique='stateful model-based testing (Hypothesis RuleBasedStateMachine) against a reference evaluator, with fault-injection probes', ref='2/C17'),
+ 'C18': dict(text='Generated-program search: programs with ordered/limited predicates (annotation and denotation spellings, asc/desc key lists that are total over the rows, K from 0 to n+2) and deliberately shaped consumers (join, aggregation, negation, combine, functional call, injectible chain, nested ordered predicate) under @With/@NoWith/@NoInject/@Ground are compiled and run on SQLite; the ordered predicate is compared as a LIST and every dependent predicate as a multiset with an independent reference evaluator (sort, take first K); limit-only predicates are checked existentially.',
+             note='Trusted: CPython, sqlite3, Hypothesis, reference evaluator lv/ref.py. Bounded: <= 6 rows per table, key columns null-free ints or lowercase-ASCII strings, no composite columns in ordered predicates, SQLite only, Python parser only; under type checking only the CheckOrderByClause diagnostic is asserted.',
+             technique='property-based differential testing against a reference evaluator (Hypothesis), with an existential oracle for unordered truncation', ref='2/C18'),
  'C20': dict(text='One generated built-in call per case (scalar built-ins over small int/string/list domains; aggregates over <= 5 facts under ALL permutations of the fact order, K from 1 to n+1, ties, duplicates, nulls); executed on SQLite and compared with small Python models written from the documentation; every built-in of the statement exercised in every run.',
              note='Trusted: CPython, sqlite3, Hypothesis, the models in lv/builtin_models.py (each cites its documentation source). Corners the docs leave open (Element out of range, Split with empty separator, int division with remainder, negative modulo ...) are kept out of the domain and listed in evidence.',
              technique='property-based testing against reference models + exhaustive permutation of aggregate input order (Hypothesis)', ref='2/C20'),
